@@ -292,11 +292,11 @@ func (node *Node) ProcessBlock(ctx context.Context, block wire.Block) error {
 		// conflicting tx that was sent to listeners can no longer confirm.
 		isSafe := true
 		if conflicting := node.memPool.Conflicting(tx); len(conflicting) > 0 {
-			isSafe = false
 			for _, confHash := range conflicting {
 				if confHash.Equal(txid) {
-					continue
+					continue // this tx was still in the mempool
 				}
+				isSafe = false
 				if containsHash(confHash, unconfirmed) {
 					// Only send for txs that previously matched filters.
 
